@@ -74,6 +74,9 @@ C = [
  ('c18_binary_key_unary', 'C18', ['ds'], 'descriptor.rs', r'(pub fn get_binary_descriptor\(&self, op: String\) -> Arc<BinaryDescriptor> \{\n        let key = DescriptorKey::)BINARY', r'\1UNARY'),
  ('c18_set_list_writes_map_key', 'C18', ['ds'], 'descriptor.rs', r'(pub fn set_list_descriptor\(&mut self, descriptor: Arc<ListDescriptor>\) \{\n        let key = DescriptorKey::)LIST', r'\1MAP'),
  ('c18_postfix_ignores_registration', 'C18', ['ds'], 'descriptor.rs', r'Descriptor::POSTFIX\(f\) => f\.clone\(\),', 'Descriptor::POSTFIX(f) => Arc::new(default_postfix_descriptor),'),
+ ('c18_describe_children_swapped', 'C18', ['dd'], 'parser.rs', r'(get_binary_descriptor\(op\.to_string\(\)\)\(\n                op\.to_string\(\),\n                )lhs\.describe\(\),\n                rhs\.describe\(\),', r'\1rhs.describe(),\n                lhs.describe(),'),
+ ('c18_describe_list_uses_chain_descriptor', 'C18', ['dd'], 'parser.rs', r'Self::List\(values\) => DescriptorManager::new\(\)\.get_list_descriptor\(\)', 'Self::List(values) => DescriptorManager::new().get_chain_descriptor()'),
+ ('c18_describe_reference_by_constant_name', 'C18', ['dd'], 'parser.rs', r'\.get_reference_descriptor\(name\.to_string\(\)\)', '.get_reference_descriptor("x".to_string())'),
 ]
 # mutations that must still verify: behaviour-equivalent edits (a failure here is a false alarm of the overlay)
 EQUIVALENT = [
